@@ -3,3 +3,4 @@ pub mod c01;
 pub mod c13;
 pub mod c09;
 pub mod c07;
+pub mod c02;
